@@ -1,81 +1,671 @@
 package main
 
 import (
+	"encoding/json"
+	"flag"
 	"fmt"
-	"go/types"
 	"os"
+	"os/exec"
+	"path/filepath"
+	"sort"
+	"strconv"
+	"strings"
 	"time"
-
-	"golang.org/x/tools/go/packages"
-	"golang.org/x/tools/go/ssa"
-	"golang.org/x/tools/go/ssa/ssautil"
 )
 
+func usage() {
+	fmt.Fprintln(os.Stderr, `usage:
+  symgo check  -id C01 -tier quick|thorough [-v]
+  symgo run    -module memutils -pkg metadata -entry Verif_X -cfgs 0,1 [-tier quick] [-v]   (development)
+  symgo replay -file replays/x.json`)
+	os.Exit(2)
+}
+
+func defaultEnv() *Env {
+	verif := os.Getenv("VERIF_DIR")
+	if verif == "" {
+		verif = "/verif"
+	}
+	repo := os.Getenv("VERIF_REPO")
+	if repo == "" {
+		repo = "/repo"
+	}
+	env := &Env{Repo: repo, Verif: verif, Build: filepath.Join(verif, "build"), Workers: 16, Timeout: 30 * time.Minute, Samples: 6, SolverMs: 60000}
+	if w := os.Getenv("VERIF_WORKERS"); w != "" {
+		env.Workers, _ = strconv.Atoi(w)
+	}
+	os.MkdirAll(env.Build, 0o755)
+	return env
+}
+
 func main() {
-	dir := os.Args[1]
-	harnessFile := os.Args[2]
-	entry := os.Args[3]
-	t0 := time.Now()
-	src, err := os.ReadFile(harnessFile)
-	if err != nil {
-		panic(err)
+	if len(os.Args) < 2 {
+		usage()
 	}
-	cfg := &packages.Config{Mode: packages.LoadAllSyntax, Dir: dir, Overlay: map[string][]byte{dir + "/zz_verif_spike.go": src},
-		Env: append(os.Environ(), "GOFLAGS=-mod=mod")}
-	pkgs, err := packages.Load(cfg, ".")
-	if err != nil {
-		panic(err)
+	os.Setenv("PATH", "/opt/veriftools/go1.26.8/bin:"+os.Getenv("PATH"))
+	for _, kv := range []string{"GOPROXY=off", "GOSUMDB=off", "GOTOOLCHAIN=local", "GOWORK=off"} {
+		p := strings.SplitN(kv, "=", 2)
+		os.Setenv(p[0], p[1])
 	}
-	if packages.PrintErrors(pkgs) > 0 {
-		os.Exit(2)
-	}
-	prog, spkgs := ssautil.AllPackages(pkgs, ssa.InstantiateGenerics)
-	prog.Build()
-	pkg := spkgs[0]
-	fmt.Println("loaded", time.Since(t0))
-	errType = types.Universe.Lookup("error").Type()
-	fn := pkg.Func(entry)
-	if fn == nil {
-		panic("no entry " + entry)
-	}
-	ex := &Explorer{s: NewSolver(), reach: map[string]int{}, viols: map[string]*Violation{}, aborted: map[string]int{}, panics: map[string]int{}}
-	ex.work = [][]int64{{}}
-	funcs := map[string]bool{}
-	t1 := time.Now()
-	for len(ex.work) > 0 {
-		p := ex.work[len(ex.work)-1]
-		ex.work = ex.work[:len(ex.work)-1]
-		ex.prefix, ex.pos, ex.cur = p, 0, nil
-		ex.paths++
-		in := &Interp{prog: prog, ex: ex, globals: map[*ssa.Global]*Cont{}, addrOf: map[Ptr]uint64{}, ptrAt: map[uint64]Ptr{}, nextAdr: 0xc000000000, funcs: funcs, pkg: pkg}
-		ex.s.Reset()
-		ex.s.Push()
-		func() {
-			defer func() {
-				if r := recover(); r != nil {
-					switch x := r.(type) {
-					case abortPath:
-						ex.aborted[x.why]++
-					case goPanic:
-						msg := "?"
-						if i, ok := x.v.(Iface); ok {
-							if s, ok := i.v.(Str); ok {
-								msg = string(s)
-							}
-						}
-						ex.panics[msg]++
-					default:
-						panic(r)
-					}
+	env := defaultEnv()
+	switch os.Args[1] {
+	case "check":
+		fs := flag.NewFlagSet("check", flag.ExitOnError)
+		id := fs.String("id", "", "property id")
+		tier := fs.String("tier", "quick", "quick|thorough")
+		v := fs.Bool("v", false, "verbose")
+		fs.Parse(os.Args[2:])
+		env.Verbose = *v
+		os.Exit(cmdCheck(env, *id, *tier))
+	case "run":
+		fs := flag.NewFlagSet("run", flag.ExitOnError)
+		module := fs.String("module", "memutils", "")
+		pkg := fs.String("pkg", "metadata", "")
+		entry := fs.String("entry", "", "")
+		cfgs := fs.String("cfgs", "0", "")
+		tier := fs.String("tier", "quick", "")
+		noreplay := fs.Bool("noreplay", false, "skip native replays")
+		v := fs.Bool("v", true, "")
+		fs.Parse(os.Args[2:])
+		env.Verbose = *v
+		var cl []int
+		for _, c := range strings.Split(*cfgs, ",") {
+			if strings.Contains(c, "-") {
+				p := strings.SplitN(c, "-", 2)
+				a, _ := strconv.Atoi(p[0])
+				b, _ := strconv.Atoi(p[1])
+				for i := a; i <= b; i++ {
+					cl = append(cl, i)
 				}
-			}()
-			in.call(fn, nil)
-		}()
-		ex.s.Pop()
-		if ex.paths%50 == 0 {
-			fmt.Printf("... paths=%d work=%d queries=%d %.1fs\n", ex.paths, len(ex.work), ex.s.queries, time.Since(t1).Seconds())
+			} else {
+				n, _ := strconv.Atoi(c)
+				cl = append(cl, n)
+			}
+		}
+		var specs []JobSpec
+		for _, e := range strings.Split(*entry, ",") {
+			specs = append(specs, JobSpec{Module: *module, Pkg: *pkg, Entry: e, CfgsQuick: cl, CfgsThorough: cl})
+		}
+		spec := &CheckSpec{Level: "model_checking", Jobs: specs}
+		os.Exit(runCheck(env, "DEV", *tier, spec, !*noreplay))
+	case "replay":
+		fs := flag.NewFlagSet("replay", flag.ExitOnError)
+		file := fs.String("file", "", "")
+		fs.Parse(os.Args[2:])
+		os.Exit(cmdReplay(env, *file))
+	default:
+		usage()
+	}
+}
+
+func loadSpecs(env *Env) (map[string]*CheckSpec, error) {
+	b, err := os.ReadFile(filepath.Join(env.Verif, "checks.json"))
+	if err != nil {
+		return nil, err
+	}
+	m := map[string]*CheckSpec{}
+	if err := json.Unmarshal(b, &m); err != nil {
+		return nil, err
+	}
+	return m, nil
+}
+
+func cmdCheck(env *Env, id, tier string) int {
+	specs, err := loadSpecs(env)
+	if err != nil {
+		fmt.Println("cannot read checks.json:", err)
+		return 2
+	}
+	spec := specs[id]
+	if spec == nil {
+		fmt.Println("no check registered for", id)
+		return 2
+	}
+	return runCheck(env, id, tier, spec, true)
+}
+
+type finding struct {
+	kind, property, entry, label, text string
+}
+
+func loadFindings(env *Env) []finding {
+	b, err := os.ReadFile(filepath.Join(env.Verif, "known_findings.txt"))
+	if err != nil {
+		return nil
+	}
+	var out []finding
+	for _, l := range strings.Split(string(b), "\n") {
+		l = strings.TrimSpace(l)
+		if l == "" || strings.HasPrefix(l, "#") {
+			continue
+		}
+		var f finding
+		switch {
+		case strings.HasPrefix(l, "finding:"):
+			f.kind = "finding"
+			l = strings.TrimSpace(strings.TrimPrefix(l, "finding:"))
+		case strings.HasPrefix(l, "fixed:"):
+			f.kind = "fixed"
+			l = strings.TrimSpace(strings.TrimPrefix(l, "fixed:"))
+		default:
+			continue
+		}
+		for _, tok := range strings.Fields(l) {
+			switch {
+			case strings.HasPrefix(tok, "property="):
+				f.property = strings.TrimPrefix(tok, "property=")
+			case strings.HasPrefix(tok, "entry="):
+				f.entry = strings.TrimPrefix(tok, "entry=")
+			case strings.HasPrefix(tok, "label="):
+				f.label = strings.TrimPrefix(tok, "label=")
+			}
+		}
+		f.text = l
+		out = append(out, f)
+	}
+	return out
+}
+
+func runCheck(env *Env, id, tier string, spec *CheckSpec, doReplay bool) int {
+	t0 := time.Now()
+	seed, _ := strconv.Atoi(os.Getenv("VERIF_SEED"))
+	tierN := 0
+	if tier == "thorough" {
+		tierN = 1
+		env.Samples = 24
+		env.Timeout = 4 * time.Hour
+	}
+	if t := os.Getenv("VERIF_TIMEOUT_S"); t != "" {
+		n, _ := strconv.Atoi(t)
+		env.Timeout = time.Duration(n) * time.Second
+	}
+	evPath := filepath.Join(env.Verif, "evidence", id+".json")
+	os.Remove(evPath)
+
+	ld, err := loadTargets(env, spec.Jobs)
+	if err != nil {
+		fmt.Println("INCONCLUSIVE: cannot load code under test:", err)
+		return 2
+	}
+	if env.Verbose {
+		fmt.Fprintf(os.Stderr, "loaded in %.1fs\n", ld.loadDur.Seconds())
+	}
+	var jobs []*Job
+	specByEntry := map[string]JobSpec{}
+	for _, js := range spec.Jobs {
+		specByEntry[js.Entry] = js
+		cfgs := js.CfgsQuick
+		if tierN == 1 && len(js.CfgsThorough) > 0 {
+			cfgs = js.CfgsThorough
+		}
+		for _, c := range cfgs {
+			jobs = append(jobs, &Job{Entry: js.Entry, Cfg: c, Tier: tierN})
 		}
 	}
-	fmt.Printf("explore wall=%.2fs funcs=%d\n", time.Since(t1).Seconds(), len(funcs))
-	ex.report()
+	rr := runJobs(env, ld, jobs, specByEntry)
+
+	// ---- aggregate
+	inconclusive := []string{}
+	totalPaths, totalDecisions, totalOps := 0, 0, 0
+	reach := map[string]int{}
+	asserts := map[string]int{}
+	panics := map[string]int{}
+	aborted := map[string]int{}
+	var samples []*PathRecord
+	type violKey struct{ entry, label string }
+	viols := map[violKey]*Violation{}
+	var violOrder []violKey
+	for _, j := range jobs {
+		r := j.res
+		totalPaths += r.paths
+		totalDecisions += r.decisions
+		totalOps += r.ops
+		for k, v := range r.reach {
+			reach[j.Entry+":"+k] += v
+		}
+		for k, v := range r.asserts {
+			asserts[j.Entry+":"+k] += v
+		}
+		for k, v := range r.panics {
+			panics[j.Entry+": "+k] += v
+		}
+		for k, v := range r.aborted {
+			aborted[k] += v
+		}
+		for _, w := range r.inconcl {
+			inconclusive = append(inconclusive, fmt.Sprintf("%s cfg=%d: %s", j.Entry, j.Cfg, w))
+		}
+		samples = append(samples, r.samples...)
+		for _, l := range sortedKeys(r.viols) {
+			k := violKey{j.Entry, l}
+			if viols[k] == nil {
+				viols[k] = &Violation{Label: l}
+				violOrder = append(violOrder, k)
+			}
+			viols[k].Count += r.viols[l].Count
+			if len(viols[k].Recs) < 3 {
+				viols[k].Recs = append(viols[k].Recs, r.viols[l].Recs...)
+			}
+		}
+		if r.paths == 0 {
+			inconclusive = append(inconclusive, fmt.Sprintf("%s cfg=%d: no path explored", j.Entry, j.Cfg))
+		}
+	}
+	if rr.timedOut {
+		inconclusive = append(inconclusive, "time limit reached before the path space was exhausted")
+	}
+	for _, c := range rr.crashed {
+		inconclusive = append(inconclusive, "engine crash: "+strings.SplitN(c, "\n", 2)[0])
+		if env.Verbose {
+			fmt.Fprintln(os.Stderr, c)
+		}
+	}
+	for _, e := range rr.solverErr {
+		inconclusive = append(inconclusive, "solver error line: "+e)
+	}
+	if rr.unknown > 0 {
+		inconclusive = append(inconclusive, fmt.Sprintf("%d solver queries returned unknown", rr.unknown))
+	}
+	// vacuity: every job must have at least one completed path and every declared reach label must be hit
+	for _, j := range jobs {
+		if len(j.res.reach) == 0 && j.res.paths > 0 {
+			inconclusive = append(inconclusive, fmt.Sprintf("vacuity: %s cfg=%d completed no path to a verifReach label", j.Entry, j.Cfg))
+		}
+	}
+	for _, m := range spec.MustReach {
+		if reach[m] == 0 {
+			inconclusive = append(inconclusive, "vacuity: required label never reached: "+m)
+		}
+	}
+
+	// ---- solver cross-check
+	diffChecked := 0
+	var diffDisagree []string
+	if len(rr.samples) > 0 {
+		n := len(rr.samples)
+		if tierN == 0 && n > 40 {
+			n = 40
+		}
+		c1, d1 := crossCheck(rr.samples[:n], []string{"z3-new", "-in", "-smt2"}, env.SolverMs)
+		c2, d2 := crossCheck(rr.samples[:n], []string{"cvc5", "--incremental", "--lang=smt2", "--tlimit-per=60000"}, env.SolverMs)
+		diffChecked = c1 + c2
+		diffDisagree = append(d1, d2...)
+		for _, d := range diffDisagree {
+			inconclusive = append(inconclusive, "solver disagreement: "+d)
+		}
+	}
+
+	// ---- translator validation + violation confirmation (native replays)
+	validated := 0
+	confirmed := map[violKey]*PathRecord{}
+	var replayNotes []string
+	if doReplay {
+		// group by module/pkg of the entry
+		group := map[string][]*PathRecord{}
+		for _, s := range samples {
+			js := specByEntry[s.Entry]
+			group[js.Module+"|"+js.Pkg] = append(group[js.Module+"|"+js.Pkg], s)
+		}
+		for _, k := range violOrder {
+			js := specByEntry[k.entry]
+			for _, r := range viols[k].Recs {
+				group[js.Module+"|"+js.Pkg] = append(group[js.Module+"|"+js.Pkg], r)
+			}
+		}
+		for _, j := range jobs {
+			js := specByEntry[j.Entry]
+			for _, m := range sortedKeys(j.res.panicRecs) {
+				group[js.Module+"|"+js.Pkg] = append(group[js.Module+"|"+js.Pkg], j.res.panicRecs[m])
+			}
+		}
+		for gk, recs := range group {
+			p := strings.SplitN(gk, "|", 2)
+			outs, err := nativeReplay(env, ld, p[0], p[1], recs)
+			if err != nil {
+				inconclusive = append(inconclusive, "native replay failed: "+err.Error())
+				continue
+			}
+			for i, rec := range recs {
+				o := outs[i]
+				ok, why := compareNative(rec, o)
+				if rec.Outcome == "assert" {
+					if ok {
+						k := violKey{rec.Entry, rec.FailLabel}
+						if confirmed[k] == nil {
+							confirmed[k] = rec
+						}
+					} else {
+						replayNotes = append(replayNotes, fmt.Sprintf("counterexample for %s:%s did not reproduce natively: %s", rec.Entry, rec.FailLabel, why))
+					}
+					continue
+				}
+				if ok {
+					validated++
+				} else {
+					inconclusive = append(inconclusive, fmt.Sprintf("encoder disagreement on %s cfg=%d (%s): %s", rec.Entry, rec.Cfg, rec.Outcome, why))
+				}
+			}
+		}
+		for _, k := range violOrder {
+			if confirmed[k] == nil {
+				inconclusive = append(inconclusive, fmt.Sprintf("violation %s:%s found by the solver but not reproduced natively", k.entry, k.label))
+			}
+		}
+	}
+
+	// ---- report
+	findings := loadFindings(env)
+	exit := 0
+	nviol := 0
+	os.MkdirAll(filepath.Join(env.Verif, "replays"), 0o755)
+	for _, k := range violOrder {
+		rec := confirmed[k]
+		if rec == nil {
+			if doReplay {
+				continue
+			}
+			rec = viols[k].Recs[0]
+		}
+		known := false
+		for _, f := range findings {
+			if f.kind == "finding" && f.property == id && f.entry == k.entry && f.label == k.label {
+				fmt.Printf("KNOWN-FINDING: property=%s %s\n", id, f.text)
+				known = true
+			}
+		}
+		if known {
+			continue
+		}
+		nviol++
+		path := filepath.Join(env.Verif, "replays", fmt.Sprintf("%s-%s-%s.json", id, k.entry, sanitize(k.label)))
+		writeJSON(path, []*PathRecord{rec})
+		fmt.Printf("VIOLATION property=%s replay=%s\n", id, path)
+		fmt.Printf("  entry=%s cfg=%d assert=%q inputs=%s (%d paths)\n", k.entry, rec.Cfg, k.label, fmtNondet(rec.Nondet), viols[k].Count)
+		exit = 1
+	}
+	for _, n := range replayNotes {
+		fmt.Println("NOTE:", n)
+	}
+	if exit == 0 && len(inconclusive) > 0 {
+		exit = 2
+	}
+	sort.Strings(inconclusive)
+	for i, w := range inconclusive {
+		if i > 12 {
+			fmt.Printf("INCONCLUSIVE: ... %d more\n", len(inconclusive)-i)
+			break
+		}
+		fmt.Println("INCONCLUSIVE:", w)
+	}
+
+	// ---- evidence
+	bounds := spec.BoundsQuick
+	if tierN == 1 && spec.BoundsThorough != "" {
+		bounds = spec.BoundsThorough
+	}
+	var sampleOut []any
+	for i, s := range samples {
+		if i >= 5 {
+			break
+		}
+		sampleOut = append(sampleOut, map[string]any{"entry": s.Entry, "cfg": s.Cfg, "inputs": fmtNondet(s.Nondet), "decisions": len(s.Decisions), "reach": s.Reach, "outcome": s.Outcome})
+	}
+	if len(sampleOut) == 0 {
+		sampleOut = append(sampleOut, "no completed path")
+	}
+	level := spec.Level
+	if level == "" {
+		level = "model_checking"
+	}
+	files := sourceFilesOf(rr.funcs)
+	jobList := []string{}
+	for _, j := range jobs {
+		jobList = append(jobList, fmt.Sprintf("%s/cfg%d:paths=%d", j.Entry, j.Cfg, j.res.paths))
+	}
+	cov := map[string]any{
+		"states":                        max(totalPaths, 0),
+		"transitions":                   totalDecisions + totalOps,
+		"traces_validated_against_impl": validated,
+		"samples":                       sampleOut,
+		"evaluations":                   totalPaths,
+		"distinct_nontrivial":           totalPaths,
+		"rule":                          "one evaluation = one symbolic path (a distinct vector of branch/concretisation decisions) of a harness entry, decided by the SMT solver for all values of the symbolic inputs; all are distinct by construction",
+		"exhaustive":                    len(inconclusive) == 0,
+		"explanation":                   "symbolic execution of the real code from go/ssa of /repo's working tree; states = symbolic paths fully explored, transitions = branch decisions + API operations executed; every path condition and assertion decided by z3 4.8.12 over 64-bit bit-vectors",
+		"bounds":                        bounds,
+		"outside_the_claim":             spec.Outside,
+		"jobs":                          jobList,
+		"functions_encoded":             sortedFuncs(rr.funcs, true),
+		"source_files_sha256_16":        files,
+		"solver_queries":                rr.queries,
+		"solver_sat":                    rr.sat,
+		"solver_unsat":                  rr.unsat,
+		"solver_unknown":                rr.unknown,
+		"solver_time_s":                 round2(rr.solverDur.Seconds()),
+		"solver_slowest_query_s":        round2(rr.slowest.Seconds()),
+		"solver_diff_checked":           diffChecked,
+		"solver_diff_disagreements":     len(diffDisagree),
+		"reach_counts":                  reach,
+		"assert_sites_evaluated":        asserts,
+		"paths_ended_in_panic":          panics,
+		"paths_aborted":                 aborted,
+		"inconclusive":                  inconclusive,
+		"load_time_s":                   round2(ld.loadDur.Seconds()),
+		"explore_time_s":                round2(rr.wall.Seconds()),
+		"workers":                       env.Workers,
+		"obligations":                   rr.queries,
+		"discharged":                    rr.queries - rr.unknown,
+		"checker_cmd":                   "z3 -in -smt2 (4.8.12), cross-checked with z3-new 5.1.0 and cvc5 --incremental",
+		"trusted_base":                  []string{"symgo engine (/verif/engine)", "golang.org/x/tools/go/ssa v0.50.0", "z3 4.8.12", "harness oracles in /verif/harness"},
+	}
+	ev := Evidence{PropertyID: id, Tier: tier, Seed: seed, Level: level, Coverage: cov,
+		Assumptions: append([]string{"environment stubs of DESIGN.md §2.4"}, spec.Assumptions...), WallS: round2(time.Since(t0).Seconds()), Violations: nviol}
+	if id != "DEV" {
+		if err := writeJSON(evPath, ev); err != nil {
+			fmt.Println("cannot write evidence:", err)
+			return 2
+		}
+	}
+	fmt.Printf("%s %s: paths=%d queries=%d (sat %d / unsat %d / unknown %d) solver=%.1fs wall=%.1fs validated=%d violations=%d exit=%d\n",
+		id, tier, totalPaths, rr.queries, rr.sat, rr.unsat, rr.unknown, rr.solverDur.Seconds(), time.Since(t0).Seconds(), validated, nviol, exit)
+	if env.Verbose {
+		for _, k := range sortedKeys(reach) {
+			fmt.Printf("  reach %s = %d\n", k, reach[k])
+		}
+		for _, k := range sortedKeys(panics) {
+			fmt.Printf("  panic %s = %d\n", k, panics[k])
+		}
+		for _, k := range sortedKeys(aborted) {
+			fmt.Printf("  aborted %s = %d\n", k, aborted[k])
+		}
+		for _, k := range violOrder {
+			r := viols[k].Recs[0]
+			fmt.Printf("  solver-violation %s:%s cfg=%d x%d confirmed=%v inputs=%s\n", k.entry, k.label, r.Cfg, viols[k].Count, confirmed[k] != nil, fmtNondet(r.Nondet))
+		}
+	}
+	return exit
+}
+
+func round2(f float64) float64 { return float64(int(f*100+0.5)) / 100 }
+
+func fmtNondet(n []NondetVal) string {
+	var sb strings.Builder
+	for i, v := range n {
+		if i > 0 {
+			sb.WriteByte(' ')
+		}
+		if v.W == 64 {
+			fmt.Fprintf(&sb, "%s=%d", v.Name, int64(v.Val))
+		} else {
+			fmt.Fprintf(&sb, "%s=%d", v.Name, v.Val)
+		}
+	}
+	return sb.String()
+}
+
+// ---------------------------------------------------------------------------------------------
+// native replay
+
+type NativeOut struct {
+	Outcome  string   `json:"outcome"` // end | assert | panic | assume | timeout | exhausted
+	Fail     string   `json:"fail,omitempty"`
+	PanicMsg string   `json:"panic_msg,omitempty"`
+	Obs      []Obs    `json:"obs,omitempty"`
+	Reach    []string `json:"reach,omitempty"`
+}
+
+func nativeReplay(env *Env, ld *Loaded, module, pkg string, recs []*PathRecord) ([]NativeOut, error) {
+	dir := filepath.Join(env.Build, "replay")
+	os.MkdirAll(dir, 0o755)
+	tag := fmt.Sprintf("%d", os.Getpid())
+	inF := filepath.Join(dir, "in-"+tag+".json")
+	outF := filepath.Join(dir, "out-"+tag+".json")
+	ovF := filepath.Join(dir, "overlay-"+tag+".json")
+	defer os.Remove(inF)
+	defer os.Remove(outF)
+	defer os.Remove(ovF)
+	if err := writeJSON(inF, recs); err != nil {
+		return nil, err
+	}
+	repl := map[string]string{}
+	for v, r := range ld.overlay {
+		if strings.HasPrefix(v, filepath.Join(env.Repo, module, pkg)+"/") {
+			repl[v] = r
+		}
+	}
+	if module == "vam" {
+		// existing in-package tests of vam do not build in this sandbox; blank them out
+		empty := filepath.Join(dir, "empty_test.go")
+		ents, _ := os.ReadDir(filepath.Join(env.Repo, module, pkg))
+		pkgName := ""
+		for v, r := range repl {
+			if strings.HasSuffix(v, "zz_verif_support.go") {
+				b, _ := os.ReadFile(r)
+				for _, l := range strings.Split(string(b), "\n") {
+					if strings.HasPrefix(l, "package ") {
+						pkgName = strings.TrimSpace(strings.TrimPrefix(l, "package "))
+						break
+					}
+				}
+			}
+		}
+		os.WriteFile(empty, []byte("package "+pkgName+"\n"), 0o644)
+		for _, e := range ents {
+			if strings.HasSuffix(e.Name(), "_test.go") {
+				repl[filepath.Join(env.Repo, module, pkg, e.Name())] = empty
+			}
+		}
+	}
+	if err := writeJSON(ovF, map[string]any{"Replace": repl}); err != nil {
+		return nil, err
+	}
+	args := []string{"test", "-vet=off", "-count=1", "-tags=verif_harness", "-run", "^TestVerifReplay$", "-timeout", "20m", "-overlay", ovF, "./" + pkg}
+	cmd := exec.Command("go", args...)
+	cmd.Dir = filepath.Join(env.Repo, module)
+	cmd.Env = append(goEnv(env, module), "VERIF_REPLAY="+inF, "VERIF_REPLAY_OUT="+outF)
+	out, err := cmd.CombinedOutput()
+	b, rerr := os.ReadFile(outF)
+	if rerr != nil {
+		return nil, fmt.Errorf("go test produced no result file (%v): %s", err, tail(string(out), 2000))
+	}
+	var outs []NativeOut
+	if err := json.Unmarshal(b, &outs); err != nil {
+		return nil, err
+	}
+	for len(outs) < len(recs) {
+		outs = append(outs, NativeOut{Outcome: "exhausted"})
+	}
+	return outs, nil
+}
+
+func tail(s string, n int) string {
+	if len(s) > n {
+		return s[len(s)-n:]
+	}
+	return s
+}
+
+func compareNative(rec *PathRecord, o NativeOut) (bool, string) {
+	switch rec.Outcome {
+	case "assert":
+		if o.Outcome == "assert" && o.Fail == rec.FailLabel {
+			return true, ""
+		}
+		return false, fmt.Sprintf("native outcome=%s fail=%q panic=%q", o.Outcome, o.Fail, o.PanicMsg)
+	case "panic":
+		if o.Outcome != "panic" {
+			return false, fmt.Sprintf("engine panicked (%s) but native outcome=%s fail=%q", rec.PanicMsg, o.Outcome, o.Fail)
+		}
+		return true, ""
+	case "end":
+		if o.Outcome != "end" {
+			return false, fmt.Sprintf("native outcome=%s fail=%q panic=%q", o.Outcome, o.Fail, o.PanicMsg)
+		}
+		if len(o.Obs) != len(rec.Obs) {
+			return false, fmt.Sprintf("observation count %d vs native %d", len(rec.Obs), len(o.Obs))
+		}
+		for i := range o.Obs {
+			if o.Obs[i] != rec.Obs[i] {
+				return false, fmt.Sprintf("observation %d: engine %v native %v", i, rec.Obs[i], o.Obs[i])
+			}
+		}
+		if strings.Join(o.Reach, ",") != strings.Join(rec.Reach, ",") {
+			return false, fmt.Sprintf("reach labels %v vs native %v", rec.Reach, o.Reach)
+		}
+		return true, ""
+	}
+	return false, "unknown outcome " + rec.Outcome
+}
+
+func cmdReplay(env *Env, file string) int {
+	b, err := os.ReadFile(file)
+	if err != nil {
+		fmt.Println(err)
+		return 2
+	}
+	var recs []*PathRecord
+	if err := json.Unmarshal(b, &recs); err != nil {
+		fmt.Println(err)
+		return 2
+	}
+	specs, err := loadSpecs(env)
+	if err != nil {
+		fmt.Println(err)
+		return 2
+	}
+	var js *JobSpec
+	for _, s := range specs {
+		for i := range s.Jobs {
+			if s.Jobs[i].Entry == recs[0].Entry {
+				js = &s.Jobs[i]
+			}
+		}
+	}
+	if js == nil {
+		fmt.Println("entry not registered:", recs[0].Entry)
+		return 2
+	}
+	ld := &Loaded{overlay: map[string]string{}}
+	if js.Module == "vam" {
+		prepareVamModfile(env)
+	}
+	ov, _, err := harnessOverlay(env, js.Module, js.Pkg)
+	if err != nil {
+		fmt.Println(err)
+		return 2
+	}
+	ld.overlay = ov
+	outs, err := nativeReplay(env, ld, js.Module, js.Pkg, recs)
+	if err != nil {
+		fmt.Println(err)
+		return 2
+	}
+	rc := 0
+	for i, o := range outs {
+		fmt.Printf("replay %s cfg=%d inputs=%s -> native outcome=%s fail=%q panic=%q\n", recs[i].Entry, recs[i].Cfg, fmtNondet(recs[i].Nondet), o.Outcome, o.Fail, o.PanicMsg)
+		if o.Outcome == "assert" {
+			rc = 1
+		}
+	}
+	return rc
 }
